@@ -21,6 +21,16 @@ CHECKS = {
    technique=TECH+"trie of all strings over an alphabet up to a length bound, oracle = identity",
    ref="3.17"),
 
+ "C01": dict(
+   text="Explicit-state BFS over builder-call histories of the real SELECT (61-op menu incl. custom templates with reordered / quoted marks, window frames, LIMIT/OFFSET, subqueries in FROM / IN / EXISTS / scalar position, set operations, CTE, VALUES lists, empty-IN rewrite, lock clauses) to depth 4 (quick) / 5 (thorough) and of INSERT / UPDATE / DELETE (upsert variants, UPDATE..FROM, RETURNING expressions, ORDER BY / LIMIT) to depth 4 / 5, every state built on MySQL, Postgres and SQLite. Oracle (never through the inline path): the dialect's reference lexer locates the placeholders outside quoted text - their count must equal the returned values, `?` on MySQL/SQLite, `$1..$n` ascending each once on Postgres - and the returned values must be exactly the tagged values the reference state holds for the clauses that dialect renders, in the order the dialect's grammar reads those clauses (MySQL UPDATE..JOIN..ON before SET, MySQL NULLS emulation writing the expression twice, RETURNING dropped on MySQL, ...).",
+   note="Trusted: the reference lexers and the per-dialect clause reading order in qmodel.rs / dml.rs (SelSpec::tags, DSpec::tags). Nested statements come from a representative pool of 4.",
+   technique=TECH+"BFS over builder-call histories with state deduplication, oracle = reference lexer + tagged reference state",
+   ref="3.1"),
+ "C02": dict(
+   text="Every state of the SELECT (depth 3 / 4) and INSERT / UPDATE / DELETE (depth 4 / 5) state machines x 3 backends, plus a sweep of 140 values covering every Value variant (all features; NULL of every variant) through 8 statement positions: (a) replacing the placeholders of build(B), located by the reference lexer, by B.value_to_string(value_i) gives exactly to_string(B); (b) build / build_any / build_collect / build_collect_into / to_string agree, rendering twice agrees, Debug of the statement is unchanged by rendering; (c) on a real SQLite engine the inline and the bound form return the same rows / have the same effects (values bound as the in-repo rusqlite binder binds them; also value/2 for numeric values); (d) every inlined literal is decoded independently (reference lexer + the value type's own parser) and must give back the bound value; the two token streams must agree everywhere else.",
+   note="Trusted: reference lexers; f32 values take part in the engine comparison only where widening to f64 is exact; date / decimal / uuid / json values take part in (a), (b), (d) only. Two genuine defects repaired by fix: commits.",
+   technique=TECH+"BFS over builder-call histories + exhaustive value-variant sweep, oracle = reference lexer, independent literal decoding and differential execution on a real SQLite engine",
+   ref="3.2"),
  "C03": dict(
    text="Every string over a 22-symbol escape-relevant alphabet up to length 4 (quick) / 5 (thorough), every Unicode scalar as char, all byte strings up to length 2 (+ every byte in a frame) x {MySQL, Postgres, SQLite} x 40 inlining positions (query values, constants, ORDER BY FIELD, LIKE pattern / ESCAPE char, IN lists, INSERT/UPDATE values, DEFAULT, JSON, array elements, MySQL COMMENT and ENUM labels, PG CREATE/ALTER TYPE labels). Oracle: differential against a benign marker under the dialect's reference lexer (same token skeleton, one literal token in the slot, decoded content == value); on SQLite the real engine decodes the literal as well (SELECT / DEFAULT read back).",
    note="Trusted: MySQL and PostgreSQL lexical rules transcribed from the manuals (no engine offline; default sql_mode, standard_conforming_strings=on); the SQLite lexer is validated against the engine on every run. Three genuine defects were repaired by fix: commits (see known_findings.json).",
